@@ -23,6 +23,11 @@ ANY_LAYER = ["access_any_layer", "be_accessed_by_any_layer"]
 # rule specifications
 # ------------------------------------------------------------------------------------
 def _misspell(rng, name):
+    last = name.rsplit(".", 1)[-1]
+    if set(last) & set("- ~") and rng.random() < 0.5:
+        cut = min(i for i, ch in enumerate(last) if ch in "- ~")
+        if cut:
+            return name[: len(name) - len(last) + cut]  # "pkg.core-old" -> "pkg.core"
     r = rng.random()
     if r < 0.4:
         return name + "x"
@@ -356,6 +361,7 @@ def generate(seed, index):
         "abort": rng.random() < 0.35,
         "lifetimes": rng.random() < 0.4,
         "shared_constants": rng.random() < 0.35,
+        "io_errors": rng.random() < 0.3,
     }
     nclients = rng.randint(1, 6)
     n_evals = rng.randint(5, 40)
@@ -364,7 +370,8 @@ def generate(seed, index):
     faults = {"F1_readdir_order": 0, "F3_history_order": 0, "F4_reapply_same": 0,
               "F5_reapply_other": 0, "F6_arg_permutation": 0, "F7_rescan": 0,
               "F9_client_interleave": 0, "F11_observation_between_evaluations": 0,
-              "F12_abort_planned": 0, "F13_object_dropped": 0, "F14_shared_argument_lists": 0}
+              "F12_abort_planned": 0, "F13_object_dropped": 0, "F14_shared_argument_lists": 0,
+              "F15_io_error_planned": 0}
     # evaluables: one per cfg, created in the setup phase under a chosen listing order
     evs = {}  # ev id -> cfg id
     ev_of_cfg = {}
@@ -484,6 +491,44 @@ def generate(seed, index):
                     own_evs.setdefault(cid, []).append(sop2["ev"])
                     ev_of_cfg[cid].append(sop2["ev"])
                 faults["F12_abort_planned"] += 1
+                budget -= 1
+                continue
+            if swarm["io_errors"] and rng.random() < 0.1:
+                # F15: the disk fails once under a scan (the k-th directory listing or the k-th file
+                # opened raises OSError) or under the evaluation of a diagram rule (its file cannot be
+                # read); the failed request is not judged, the same request made again is, and so is
+                # everything that comes after it
+                diagram_sids = [x for x in spec_ids if specs[x]["kind"] == "diagram"]
+                err = rng.choice(["EIO", "EIO", "EACCES", "EMFILE"])
+                if diagram_sids and rng.random() < 0.4:
+                    oid = new_rule_obj(W.pick(rng, diagram_sids), c)
+                    own.append(oid)
+                    cid = specs[robjs[oid]]["target"]
+                    ev = W.pick(rng, [ev_of_cfg[cid][0]] + own_evs.get(cid, []))
+                    key = f"{robjs[oid]}|{cid}"
+                    if rng.random() < 0.5:
+                        client_ops[c].append({"op": "apply", "obj": oid, "ev": ev, "key": key})
+                    client_ops[c].append({"op": "apply", "obj": oid, "ev": ev, "key": key,
+                                          "io_fault": {"kind": "open", "at": 1, "err": err}})
+                    client_ops[c].append({"op": "apply", "obj": oid, "ev": ev, "key": key})
+                    used_pairs.append((robjs[oid], cid))
+                else:
+                    cid = W.pick(rng, cfg_ids)
+                    tree = trees[cfgs[cid]["tree"]]
+                    k = int(round(10 ** (rng.random() * 1.3)))
+                    sop = {"op": "scan", "ev": f"E{len(evs)}", "cfg": cid,
+                           "io_fault": {"kind": rng.choice(["listdir", "open", "open"]), "at": k, "err": err}}
+                    order = _listing_order(rng, tree, swarm["shuffle_listing"])
+                    if order:
+                        sop["order"] = order
+                    evs[sop["ev"]] = cid
+                    client_ops[c].append(sop)
+                    sop2 = {"op": "scan", "ev": f"E{len(evs)}", "cfg": cid}
+                    evs[sop2["ev"]] = cid
+                    client_ops[c].append(sop2)
+                    own_evs.setdefault(cid, []).append(sop2["ev"])
+                    ev_of_cfg[cid].append(sop2["ev"])
+                faults["F15_io_error_planned"] += 1
                 budget -= 1
                 continue
             r = rng.random()
